@@ -26,13 +26,13 @@ SPEC = dict(
     prop="C28",
     coq_targets=["props/C28.vo"],
     drivers=[
-        dict(name="codec", run="TestVerifC28Codec", n=dict(quick=500, thorough=30000),
+        dict(name="codec", run="TestVerifC28Codec", n=dict(quick=400, thorough=30000),
              ev=dict(requires=["V.lib.Bytes", "V.models.MountEntry"], case_type="MountEntry.case",
                      mismatch="MountEntry.mismatch", monitor="MountEntry.monitor_fail"), **_BUILD),
         dict(name="changes", run="TestVerifC28Changes", n=dict(quick=150, thorough=6000),
              ev=dict(requires=["V.lib.Bytes", "V.models.MountEntry", "V.models.MountNS"], case_type="MountNS.case",
                      mismatch="MountNS.mismatch", monitor="MountNS.monitor_fail"), **_BUILD),
-        dict(name="order", run="TestVerifC28Order", n=dict(quick=150, thorough=4000),
+        dict(name="order", run="TestVerifC28Order", n=dict(quick=100, thorough=4000),
              ev=dict(requires=["V.lib.Bytes", "V.models.MountEntry", "V.models.MountNS"], case_type="MountNS.ocase",
                      mismatch="(fun _ => false)", monitor="MountNS.order_fail"), **_BUILD),
     ],
